@@ -1,7 +1,7 @@
 """C12 Verify accepts exactly what decrypt accepts; writes nothing; inputs stay intact."""
 from .common import combined
 LEVEL = 'other'
-RULES = ('R12.a', 'R12.b', 'R12.c', 'R12.d', 'R12.e', 'R12.f', 'R12.g', 'R02.f', 'R04.g', 'R11.a')
+RULES = ('R12.a', 'R12.b', 'R12.c', 'R12.d', 'R12.e', 'R12.f', 'R12.g', 'R02.f', 'R04.g', 'R11.a', 'R01.j', 'R04.f')
 
 
 def run(prog, rec, tier):
